@@ -579,76 +579,10 @@ def realtime_flag_probe() -> bool:
 
 
 def realtime_stage(ctx: Ctx, fixes: dict):
+    from harness import c07_rt
     from splink.internals.realtime import compare_records
-    import copy
-    recs = [{"unique_id": 1, "first_name": "ann", "surname": "x", "city": "l"},
-            {"unique_id": 2, "first_name": "ann", "surname": "x", "city": "m"},
-            {"unique_id": 3, "first_name": "anm", "surname": "y", "city": "l"},
-            {"unique_id": 4, "first_name": "bob", "surname": "x", "city": "l"}]
-    nseq = 6 if ctx.quick else 40
-    terms, metas = [], []
-    for backend in ("duckdb", "sqlite"):
-        for q in range(nseq if backend == "duckdb" else max(2, nseq // 3)):
-            import splink.internals.realtime as R
-            R._sql_cache = R.SQLCache()      # the SQL cache is module-global: every sequence starts from an empty one
-            api = su.make_api(backend)
-            objs = [rt_settings(0), rt_settings(1)]
-            dicts = [rt_settings(0).create_settings_dict(api.sql_dialect.sql_dialect_str)]
-            dicts[0].pop("linker_uid", None) if isinstance(dicts[0], dict) else None
-            pool = [("obj", 0), ("obj", 1), ("dict", 0)]
-            entry = {}       # python mirror of the model, used only to steer generation away from class (c)
-            calls, outs = [], []
-            for _ in range(ctx.rng.randint(3, 8 if ctx.quick else 14)):
-                kind, idx = ctx.rng.choice(pool)
-                sid = pool.index((kind, idx))
-                flag = ctx.rng.random() < 0.5
-                use_cache = ctx.rng.random() < 0.7
-                key = (sid, flag if fixes["fx78"] else False)
-                if use_cache and key in entry and entry[key] != flag:
-                    use_cache = False          # class (c) is replayed separately
-                settings = objs[idx] if kind == "obj" else json.loads(json.dumps(dicts[idx]))
-                a, b = ctx.rng.sample(recs, 2)
-                res = compare_records(a, b, settings, api, use_sql_from_cache=use_cache, include_found_by_blocking_rules=flag)
-                cached_path = res.physical_name.startswith("__splink__realtime_compare_records_")
-                cols, rows = rt_result(res)
-                # reference: same arguments, no SQL cache, a settings object with its own identity
-                ref_settings = copy.deepcopy(objs[idx]) if kind == "obj" else rt_settings(0)
-                ref = compare_records(a, b, ref_settings, api, use_sql_from_cache=False, include_found_by_blocking_rules=flag)
-                rcols, rrows = rt_result(ref)
-                d = None
-                if cols != rcols:
-                    d = {"why": "columns", "cached": cols, "uncached": rcols}
-                elif X.rows_diff([{**rows[0], "unique_id_l": 1, "unique_id_r": 2}],
-                                 [{**rrows[0], "unique_id_l": 1, "unique_id_r": 2}]) is not None:
-                    d = {"why": "values", "cached": rows, "uncached": rrows}
-                if not (use_cache and key in entry):
-                    entry[key] = flag
-                calls.append((sid, use_cache, flag))
-                outs.append(("found_by_blocking_rules" in cols, cached_path))
-                ctx.count_case((backend, q, len(calls), sid, use_cache, flag), cached_path,
-                               {"realtime_call": {"settings": pool[sid], "use_sql_from_cache": use_cache, "flag": flag,
-                                                  "cached_path": cached_path}})
-                ctx.hist("realtime_cached_path", cached_path)
-                if d is not None:
-                    ctx.violation("compare_records with the SQL cache differs from the uncached answer",
-                                  {"case": calls, "backend": backend, "implementation": d, "specification": "identical"},
-                                  {"scenario": "realtime_cache", "flag": flag})
-            cs = coq_list([f"{{| rc_settings := {coq_nat(s)}; rc_use_cache := {coq_bool(u)}; rc_flag := {coq_bool(f)} |}}"
-                           for s, u, f in calls])
-            os_ = coq_list([f"({coq_bool(f)}, {coq_bool(c)})" for f, c in outs], "(bool * bool)")
-            terms.append(f"({coq_bool(fixes['fx78'])}, {cs}, {os_})")
-            metas.append((backend, calls, outs))
-    runner = ("fun c => match c with (fx, cs, os) => "
-              "(fix eq (a b : list (bool * bool)) : bool := match a, b with [], [] => true "
-              "| (x1, x2) :: a', (y1, y2) :: b' => Bool.eqb x1 y1 && Bool.eqb x2 y2 && eq a' b' | _, _ => false end) "
-              "(rt_run fx [] cs) os end")
-    bad, errs = ctx.eval_cases("C07_rt", X.HEADER, terms, runner, shard=60)
-    ctx.obligation("realtime: SQL used and cached/uncached path equal the SQLCache model at every call", not bad and not errs,
-                   "; ".join(errs)[:800])
-    for i in bad[:2]:
-        ctx.violation("realtime SQL cache behaves differently from the model",
-                      {"case": metas[i][1], "backend": metas[i][0], "implementation": metas[i][2],
-                       "specification": "rt_run of Model/Cache.v"}, {"model_mismatch": True, "scenario": "realtime_cache"})
+    c07_rt.realtime_stage(ctx, fixes)
+    recs = c07_rt.RECS
     # witness (c) DESIGN 7.8
     import splink.internals.realtime as R
     R._sql_cache = R.SQLCache()
